@@ -89,6 +89,7 @@ type Contract struct {
 	Ghosts    []*GhostAssign // ghost updates executed at every return
 	Callsites map[string][]*Clause // callee key -> assertions checked at each call to it
 	AtReturn  []*Clause            // assertions over locals checked at every return
+	Refines   string               // key of the interface-level contract this method must satisfy
 	Trusted   bool
 	Inline    bool // force inlining at call sites (no modular use)
 	NoPanic   bool
@@ -351,6 +352,8 @@ func (p *parser) parsePostfix() *SExpr {
 				e = &SExpr{Kind: "field", Name: strconv.FormatInt(t.n, 10), Args: []*SExpr{e}}
 			} else if t.k == "ident" {
 				e = &SExpr{Kind: "field", Name: t.s, Args: []*SExpr{e}}
+			} else if t.k == "op" && t.s == "*" {
+				e = &SExpr{Kind: "field", Name: "*", Args: []*SExpr{e}}
 			} else {
 				panic(fmt.Sprintf("%s: bad field selector %q", p.pos, t.s))
 			}
@@ -511,6 +514,8 @@ func (db *SpecDB) loadFile(path, pkgShort string, slashAt bool) error {
 				}
 				curLoop.Invariants = append(curLoop.Invariants, cl)
 			}
+		case "refines":
+			cur.Refines = strings.TrimSpace(rest)
 		case "atreturn":
 			cl, err := parseClause(rest, pos)
 			if err != nil {
